@@ -407,40 +407,41 @@ Section StokesRecip.
   Qed.
 End StokesRecip.
 
-(** * NOT CARRIED (statements kept for the record; none of them is assumed anywhere)
+(** * Similarity statements: carried by [Proofs/StokesSimilarity.v]
 
-    With [M] a 3x3 matrix acting on [vec] and [vmap M l := map (mulmv M) l]:
+    With [M] a 3x3 matrix acting on [vec] ([mapply M] of Spec/Isometry.v):
 
-    (b-iso)  linear isometries of the cut-off-free sum.
-      forall M pi pj a, (forall x y, vdot (mulmv M x) (mulmv M y) = vdot x y) ->
-        stokes_nocut (vmap M pi) (vmap M pj) a = stokes_nocut pi pj a.
-      Proof idea: with every segment active the index structure of [quad] does not depend on the
-      coordinate, so [dsum] = sum over (segment i, k, segment j, l) of
-      bw k * bw l * fm(k,l) * (c2/c45)^2 * (sum over dim of h_i^dim * h_j^dim), and the last factor is
-      <e_i, e_j>/16 for the edge vectors e_i, e_j; [fm] only contains |p - q|.
+    (cut 0)  [stokes_cut0_is_nocut]: [stokes_integration 0 pi pj a = stokes_nocut pi pj a] for all
+      patches (no extent lies in (0, 0]; instance of [stokes_cut_is_nocut] above).  This is the code
+      as repaired in /repo ([np.abs(x[-1]-x[0]) > 0]).
 
-    (b-scale) uniform scaling of the cut-off-free sum.
+    (b-iso)  [stokes_nocut_rigid], [stokes_nocut_orthogonal], [stokes_cut0_rigid]:
+      forall M t pi pj a, (forall x y, vdot (mapply M x) (mapply M y) = vdot x y) ->
+        stokes_nocut (map (fun x => vadd (mapply M x) t) pi) (map (fun x => vadd (mapply M x) t) pj) a
+        = stokes_nocut pi pj a.
+      With every segment active [dsum] = sum over (segment i, segment j) of
+      (2/45)^2 * <e_i, e_j> * G(i,j) ([dsum_true]); [e_i] the step vector of segment i, [G] the block of
+      Boole weights and ln-distance entries; the entries only contain |p - q|.
+
+    (b-scale) [stokes_nocut_scale], [stokes_outer_nocut_scale], [stokes_cut0_scale]:
       forall s pi pj a, 0 < s ->
-        (forall x y, 0 < x -> 0 < y -> tln (x * y) = tln x + tln y) ->
         (forall p q, In p (sample_pts 5 pi) -> In q (sample_pts 5 pj) -> 0 < vnorm (vsub p q)) ->
-        stokes_nocut (map (vscale s) pi) (map (vscale s) pj) (s * s * a) = stokes_nocut pi pj a.
-      Proof idea: h -> s h in both factors, |s d| = s |d| (SqrtLaws, uniqueness of the non-negative
-      root), ln (s r) = ln s + ln r; the ln s term multiplies
-      (sum over segments of 4 h_i^dim) * (sum over segments of 4 h_j^dim), and each factor is the sum of
-      the edge increments of a closed polygon, i.e. 0; the remaining sum carries s^2, as does the area.
+        tpi <> 0 -> a <> 0 ->
+        stokes_nocut (map (vscale s) pi) (map (vscale s) pj) (s * s * a) = stokes_nocut pi pj a
+      under [SqrtLaws] and [LnLaws] (ln (x y) = ln x + ln y for positive x, y).  The ln s term multiplies
+      the sum of the step vectors of a closed polygon, which is 0 ([step_sum_zero]).  The two side
+      conditions [tpi <> 0], [a <> 0] are needed because [FieldLaws] says nothing about x / 0; the
+      double sum itself picks up s*s without them.
 
-    (c) signed axis permutations, cut-off included.
+    (c) [stokes_integration_sperm]: signed axis permutations, ANY cut-off included.
       forall (sigma : nat -> nat) (e0 e1 e2 : T) cut pi pj a,
         Permutation [sigma 0; sigma 1; sigma 2] [0; 1; 2] ->
         (e0 = 1 \/ e0 = - 1) -> (e1 = 1 \/ e1 = - 1) -> (e2 = 1 \/ e2 = - 1) ->
         let M p := (e0 * coord (sigma 0) p, e1 * coord (sigma 1) p, e2 * coord (sigma 2) p) in
         stokes_integration cut (map M pi) (map M pj) a = stokes_integration cut pi pj a.
-      Proof idea: [quad] of the image in coordinate d is [quad] of the original in coordinate sigma d
-      with every coefficient multiplied by e_d (|e_d x| = |x| keeps the segment rule), both patches
-      carry the same sign, e_d * e_d = 1, and the sum over the three coordinates is reordered.
 
-    The statement for the code WITH its cut-off under general rotations / scalings is false: see the
-    finding [similarity_cutoff] in known_findings.json (harness/props/C05.py, [canonical_case]).
+    The statement for a POSITIVE cut-off under general rotations / scalings is false: that was the
+    finding [similarity_cutoff] on the pinned code (cut = 1e-3), since repaired in /repo (cut = 0).
 
     C05_partial, not proved and not attempted: F <= 1, row sums of a closed room within 2.5 % of 1,
     and every statement about the Nusselt branch (accuracy of the quadratures, cf. DESIGN.md C06). *)
